@@ -293,7 +293,11 @@ func (x *Exec) groundUnfold(def *specDef, flat []*Term) {
 	}
 	j := flat[ji]
 	base, off := j, int64(0)
-	if j.Op == "bvadd" && j.Args[1].IsLit() {
+	if j.Op == "+" && j.Args[1].IsLit() {
+		if j.Args[1].Val.IsInt64() {
+			base, off = j.Args[0], j.Args[1].Val.Int64()
+		}
+	} else if j.Op == "bvadd" && j.Args[1].IsLit() {
 		o := signed(j.Args[1].Val, 64)
 		if o.IsInt64() {
 			base, off = j.Args[0], o.Int64()
@@ -429,7 +433,7 @@ func (x *Exec) specUF(fn *ssa.Function) *specDef {
 		return c.App(d.decl, as...)
 	}
 	succ := c.BVBin("bvadd", jv, c.BVI(1, 64))
-	zero := c.BVI(0, 64)
+	zero := c.litTo(c.BVI(0, 64), jv.Sort)
 	var rest []*Term
 	for _, v := range vars {
 		if v != jv {
